@@ -527,3 +527,93 @@ theorem flushed_streamTraceFrom (sse : Bool) (i : Nat) (ps : List Bytes) :
     simpa using ih (i + 1)
 
 end GB.C13
+
+namespace GB.C13
+open GB
+
+/-! ### `ToValidUTF8` is the identity on valid UTF-8 -/
+
+/-- from a state inside a rune, a suffix that ends between runes completes the rune after exactly `depth`
+    bytes and not earlier -/
+theorem complete_rune (s : Bytes) (q : U8) (hq : q ≠ .bad) (h : s.foldl utf8Step q = .start) :
+    q.depth ≤ s.length ∧ (s.take q.depth).foldl utf8Step q = .start ∧
+    ∀ k, k < q.depth → (s.take k).foldl utf8Step q ≠ .start := by
+  induction s generalizing q with
+  | nil =>
+    simp only [List.foldl_nil] at h
+    subst h
+    simp [U8.depth]
+  | cons b t ih =>
+    by_cases hs : q = .start
+    · subst hs; simp [U8.depth]
+    · simp only [List.foldl_cons] at h
+      have hq' : utf8Step q b ≠ .bad := by
+        intro hb; rw [hb, fold_bad] at h; cases h
+      have hc : isContByte b := by
+        apply Classical.not_not.1
+        intro hn
+        exact hq' (step_nonstart_runeStart q b hs hn)
+      rcases step_cont q b hc with hb | ⟨hd, _⟩
+      · exact absurd hb hq'
+      · obtain ⟨i1, i2, i3⟩ := ih (utf8Step q b) hq' h
+        have hdq : q.depth = (utf8Step q b).depth + 1 := hd.symm
+        refine ⟨by simp only [List.length_cons]; omega, ?_, ?_⟩
+        · rw [hdq]; simpa using i2
+        · intro k hk
+          cases k with
+          | zero => simpa using hs
+          | succ k => simpa using i3 k (by omega)
+
+/-- a non-empty valid string starts with a well-formed rune, and the rest is valid -/
+theorem valid_head_rune (c : UInt8) (rest : Bytes) (h : ValidUTF8 (c :: rest) = true) :
+    ∃ n, runeLen (c :: rest) = some n ∧ 1 ≤ n ∧ n ≤ (c :: rest).length ∧ ValidUTF8 ((c :: rest).drop n) = true := by
+  unfold ValidUTF8 at h
+  simp only [List.foldl_cons, beq_iff_eq] at h
+  have hq : utf8Step .start c ≠ .bad := by
+    intro hb; rw [hb, fold_bad] at h; cases h
+  obtain ⟨h1, h2, h3⟩ := complete_rune rest _ hq h
+  have hd3 := depth_le (utf8Step .start c)
+  have hok : ∀ k, okPrefix (c :: rest) (k + 1) = (decide (k ≤ rest.length) && ((rest.take k).foldl utf8Step (utf8Step .start c) == .start)) := by
+    intro k; simp [okPrefix]
+  have hrest : (rest.drop (utf8Step .start c).depth).foldl utf8Step .start = .start := by
+    have := h
+    rw [← List.take_append_drop (utf8Step .start c).depth rest, List.foldl_append, h2] at this
+    exact this
+  refine ⟨(utf8Step .start c).depth + 1, ?_, by omega, by simp only [List.length_cons]; omega, ?_⟩
+  · generalize hdv : (utf8Step .start c).depth = d at *
+    have hno : ∀ k, k < d → okPrefix (c :: rest) (k + 1) = false := by
+      intro k hk
+      rw [hok]
+      have := h3 k hk
+      simp [this]
+    have hyes : okPrefix (c :: rest) (d + 1) = true := by
+      rw [hok]; simp [h1, h2]
+    unfold runeLen
+    match d, hd3, hno, hyes with
+    | 0, _, _, hyes => simp [hyes]
+    | 1, _, hno, hyes => simp [hno 0 (by omega), hyes]
+    | 2, _, hno, hyes => simp [hno 0 (by omega), hno 1 (by omega), hyes]
+    | 3, _, hno, hyes => simp [hno 0 (by omega), hno 1 (by omega), hno 2 (by omega), hyes]
+  · unfold ValidUTF8
+    simp only [List.drop_succ_cons, hrest, beq_self_eq_true]
+
+theorem toValidAux_id (fuel : Nat) (inv : Bool) (s : Bytes) (hf : s.length ≤ fuel) (h : ValidUTF8 s = true) :
+    toValidAux fuel inv s = s := by
+  induction fuel generalizing inv s with
+  | zero =>
+    have : s = [] := List.eq_nil_of_length_eq_zero (by omega)
+    subst this; simp [toValidAux]
+  | succ fuel ih =>
+    cases s with
+    | nil => simp [toValidAux]
+    | cons c rest =>
+      obtain ⟨n, hn, h1, h2, hv⟩ := valid_head_rune c rest h
+      simp only [toValidAux, hn]
+      rw [ih false _ (by simp only [List.length_drop, List.length_cons] at hf ⊢; omega) hv]
+      exact List.take_append_drop n (c :: rest)
+
+/-- `strings.ToValidUTF8` leaves valid UTF-8 untouched -/
+theorem toValidUTF8_id (s : Bytes) (h : ValidUTF8 s = true) : toValidUTF8 s = s :=
+  toValidAux_id s.length false s (Nat.le_refl _) h
+
+end GB.C13
